@@ -62,7 +62,7 @@ def generate(rng, i, tier):
         if rng.random() < 0.6:
             members.append(gen.gen_member(rng, hdr, len(rows), "mz", zoo_p=0.4, zoo_pool=gen.ZOO_SAFE))
     tear = {"ext": rng.choice(["csv", "json"]), "before": rng.randint(1, 8)} if rng.random() < 0.3 else None
-    return {"seed": rng.getrandbits(32), "rows": rows, "members": members, "dialect": rng.choice(DIALECTS), "policy": rng.choice([["collect", "print"], ["collect"], ["collect", "fail"], ["collect", "stop"]]), "tear": tear, "peek": rng.random() < 0.3}
+    return {"seed": rng.getrandbits(32), "rows": rows, "members": members, "dialect": rng.choice(DIALECTS), "policy": rng.choice([["collect", "print"], ["collect"], ["collect", "fail"], ["collect", "stop"]]), "tear": tear, "peek": rng.random() < 0.3, "reregister": k >= 2 and rng.random() < 0.15}
 
 
 def reductions(sc):
@@ -85,6 +85,8 @@ def reductions(sc):
         yield with_(sc, tear=None)
     if sc.get("peek"):
         yield with_(sc, peek=False)
+    if sc.get("reregister"):
+        yield with_(sc, reregister=False)
 
 
 def _features(m):
@@ -183,7 +185,20 @@ def execute(sc):
             where = f"{meth}" + ("" if agree is None else f"(if_all_agree={agree})")
             peeks = {"n": 0}
 
-            def on_yield(line, cs=cs):
+            rereg = {"done": False}
+
+            def on_yield(line, cs=cs, meth=meth):
+                if sc.get("reregister") and meth == "next_paths_collect" and not rereg["done"]:
+                    # while the serial generator run is suspended, somebody registers OTHER content under the file's name:
+                    # the run under way was started on the version that was current then
+                    rereg["done"] = True
+                    w.write_csv("src/other.csv", [rows[0]] + [[f"x{n}"] + ["9"] * (len(rows[0]) - 1) for n in range(3)], delimiter=delim, quotechar=quote)
+                    with ops.quiet():
+                        ops.new_csvpaths(delim, quote).file_manager.add_named_file(name="f", path="src/other.csv")
+                    out.fault("file_reregistered_mid_run")
+                    out.probe("named file registered anew while a generator run over it was suspended")
+                if not sc.get("peek"):
+                    return
                 # a consumer that looks at the results so far on every line it is handed (a progress display)
                 for r in ops.results_of(cs, "g"):
                     try:
@@ -194,7 +209,11 @@ def execute(sc):
                         if not ops.in_repo(e):
                             raise
 
-            caller = ops.run_group(cs, meth, "g", if_all_agree=bool(agree), on_yield=on_yield if sc.get("peek") else None)
+            caller = ops.run_group(cs, meth, "g", if_all_agree=bool(agree), on_yield=on_yield if (sc.get("peek") or sc.get("reregister")) else None)
+            if rereg["done"]:
+                # the original content becomes the current version again for the runs that follow
+                with ops.quiet():
+                    ops.new_csvpaths(delim, quote).file_manager.add_named_file(name="f", path="src/f.csv")
             if peeks["n"]:
                 out.fault("consumer_peek", peeks["n"])
                 out.probe("consumer read the collected lines while the run was going on")
@@ -250,6 +269,7 @@ def execute(sc):
         out.extra["features"] = feats
         out.probe("run over a cache with half of an entry missing", False)
         out.probe("consumer read the collected lines while the run was going on", False)
+        out.probe("named file registered anew while a generator run over it was suspended", False)
         out.probe("the same unidentified csvpath twice in a group", any(members[a]["id"] is None and members[a] == members[b] for a in range(len(members)) for b in range(a + 1, len(members))))
         out.probe("member with a mode set in its comment", any(m.get("modes") for m in members))
         for pr in ("file with an exact duplicate record", "a member stopped while others continue", "blank last record with last()", "advance in a file with interior blank records"):
